@@ -1,6 +1,7 @@
 import Gnet.Driver.Util
 import Gnet.Model.Engine
 import Gnet.Model.Handover
+import Gnet.Model.Drain
 namespace Gnet.Driver.EngineD
 open Gnet Gnet.Engine
 
@@ -106,11 +107,32 @@ def judge (source : String) (nloops : Nat) (multi : Bool) (rest : List String) :
           | .error e => some ((), "MISMATCH: " ++ e)
     | none => some ((), "MISMATCH: malformed life record: " ++ line)
 
+/-- `hammer <mode> <rounds>`: both parties of every round have finished, nobody runs tasks. Model/Drain.lean: the state is
+quiescent, so nothing is left in the queue (`nothing_stranded`) and every registration was carried out or aborted
+(`quiescent_all_settled`) - here aborted, since the loop runs none. The model's reply is that prediction for the number
+of registrations the implementation reports to have handed over. -/
+def hammerPrediction (handed : Nat) : String :=
+  -- every round is a fresh instance of the protocol with one producer and a loop that has left Polling; the schedule below
+  -- is one of its interleavings, the theorems say the outcome is the same for all of them
+  let r := Drain.run { Drain.init 1 with loop := .leaving }
+             [.enqueue 0, .loopSetExited, .load 0, .loopDrain, .loopDrain, .prodDrain 0]
+  let ok := Drain.Quiescent r
+  s!"result=ok handed={handed * r.next} aborted={handed * r.aborted.length} left={handed * r.queue.length} open=0 unanswered={if ok then 0 else 1}"
+
+def judgeHammer (rounds : Nat) (rest : List String) : Option (Unit × String) :=
+  match rest.find? (·.startsWith "handed=") with
+  | some h =>
+    let handed := (h.drop 7).toString.toNat?.getD 0
+    if handed == 0 || handed > rounds then some ((), "MISMATCH: handed out of range")
+    else some ((), hammerPrediction handed)
+  | none => some ((), "MISMATCH: malformed hammer record: " ++ " ".intercalate rest)
+
 def step (_ : Unit) (ws : List String) : Option (Unit × String) :=
   match ws with
   | "life" :: _proto :: loops :: _rp :: _tk :: _n :: source :: _et :: _lb :: rest =>
     -- a Shutdown action returned from OnBoot: Run returns without creating any loop
     judge source (if source == "boot" then 0 else loops.toNat?.getD 0) (_proto == "both") rest
+  | "hammer" :: _mode :: rounds :: rest => judgeHammer (rounds.toNat?.getD 0) rest
   | "clife" :: _proto :: loops :: _tk :: _n :: _mode :: _et :: rest => judge "client" (loops.toNat?.getD 0) false rest
   | _ => some ((), "bad-op")
 
